@@ -18,6 +18,9 @@ STD_AXIOMS_OK = (
 )
 
 
+PRIMITIVE_PREFIXES = ("Uint63.", "PrimInt63.", "Coq.Numbers.Cyclic.Int63.", "PrimFloat.", "PArray.", "Sint63.")
+
+
 def log(*a):
     print(*a, file=sys.stderr, flush=True)
 
@@ -172,7 +175,7 @@ def print_assumptions(spec, workdir):
         if m:
             cur = m.group(1); res[cur] = []
         elif cur is not None and line.strip():
-            res[cur].append(line.strip())
+            res[cur].append(line.rstrip())
     status = {}
     for t in thms:
         lines = res.get(t)
@@ -183,8 +186,12 @@ def print_assumptions(spec, workdir):
         if "Closed under the global context" in txt:
             status[t] = dict(ok=True, axioms=[])
         else:
-            axs = [l.split(":")[0].strip() for l in lines if re.match(r"^[\w.']+\s*:", l)]
-            okax = all(any(a.endswith(s) or s in a for s in STD_AXIOMS_OK) for a in axs) and bool(axs)
+            # "Axioms:" then entries "name : type" where long names put " : type" on the next line
+            # entries start in column 0: "name : type" or, for long names, "name" with " : type" on the next line
+            axs = [l.split()[0] for l in lines if l and not l[0].isspace() and not l.startswith(("Axioms:", "Section Variables:", "Fetching", "Loading"))]
+            def allowed(a):
+                return any(a.endswith(s_) or s_ in a for s_ in STD_AXIOMS_OK) or a.startswith(PRIMITIVE_PREFIXES)
+            okax = bool(axs) and all(allowed(a) for a in axs)
             status[t] = dict(ok=okax, axioms=axs or lines)
     return rc == 0 and all(s["ok"] for s in status.values()), status
 
